@@ -55,13 +55,22 @@ def _key(cin, field, error, cls):
     cfg = cin["cfg"]
     return dict(fn=cfg["builder"], field=field, error=error, incl=cfg["incl"], cstr=cfg["cstr"],
                 kinds=",".join(cfg["kinds"]), subs=",".join(cfg["subs"]), comp=cfg["comp"], cls=cls,
-                gsub=cfg.get("gsub", "none"), fsub=cfg.get("fsub", "none"),
+                gsub=cfg.get("gsub", "none"), fsub=cfg.get("fsub", "none"), alias=bool(cfg.get("alias")),
                 feedorder=",".join(cin["feed"].get("order") or []), hist=len(cin.get("hist") or []),
                 consts=",".join(cfg.get("consts", [])), symorder=",".join(cfg.get("symorder", [])))
 
 
 def replay_case(case):
-    """-> (status, list of (key, observed, expected))"""
+    """-> (status, list of (key, observed, expected)).  Total: whatever the code under test returns
+    or raises ends as an entry of the list, never as a crash of the worker."""
+    try:
+        return _replay_case(case)
+    except Exception as e:   # an observation the projections did not anticipate
+        return "built", [(_key(case["in"], "observation", type(e).__name__, case.get("cls", "")),
+                          {"raise": type(e).__name__, "msg": str(e)[:200]}, "an observable result")]
+
+
+def _replay_case(case):
     cin, exp = case["in"], case["exp"]
     obs = kc.observe_odesys(cin)
     if kc.is_raise(obs["build"]):
@@ -100,8 +109,10 @@ def _run_trace(arg):
         bind[kc.kname(rx["k"])] = rx["kv"]
         bind[kc.pname(rx["k"])] = rx["kv"]
         bind[kc.qname(rx["k"])] = cfg["qval"]
-    bind["T"] = cfg["tval"]
-    bind["a1"] = cfg["aval"]
+    for i, rx in enumerate(cin["rxns"]):
+        bind["T%d" % rx["k"]] = cfg["tvals"][i]
+        bind["a%d" % rx["k"]] = cfg["avals"][i]
+    bind["Tg"] = cfg["tval"]
     bind["g"] = cfg["gval"]
     if sysd["feed"]:
         bind[kc.FEEDVAR] = sysd["feed"]["F"]
